@@ -7,6 +7,9 @@ use futures::stream::StreamExt as _;
 use log::{debug, error};
 use network::SimpleSender;
 use std::collections::HashMap;
+#[cfg(hotstuff_verif)]
+use network::simnet::{SystemTime, UNIX_EPOCH};
+#[cfg(not(hotstuff_verif))]
 use std::time::{SystemTime, UNIX_EPOCH};
 use store::{Store, StoreError};
 use tokio::sync::mpsc::{channel, Receiver, Sender};
